@@ -60,8 +60,11 @@ pub fn run_exchanges(cfgs: Vec<Arc<ExchCfg>>, lim: &Limits, require_single_outco
                 rep.caps_hit.push(format!("state cap {} hit in exchange #{}", lim.max_states, i));
             }
             for f in &ex.found {
+                let base = f.key.strip_prefix(&format!("{}:", cfg.prop)).unwrap_or(&f.key);
+                let base = base.strip_suffix(":after-noop-call").unwrap_or(base);
+                let in_scope = base.starts_with("panic:") || (cfg.scope)(base);
                 rep.violation(Violation {
-                    key: f.key.clone(),
+                    key: if in_scope { f.key.clone() } else { format!("out-of-scope:{}", f.key) },
                     ord: (i as u64) * 10_000 + f.trace.len() as u64,
                     what: format!("{} [exchange #{}, after {} steps]", f.what, i, f.trace.len()),
                     replay: json!({"exchange": describe(cfg), "cfg_index": i, "trace": trace_json(&f.trace)}),
